@@ -73,6 +73,7 @@ func (h *descHolder) setDesc(d DescJ, popts thrift.Options) {
 type c03 struct {
 	descHolder
 	cases int
+	prop  string
 }
 
 func (c *c03) run(tc T2JCase) {
@@ -90,7 +91,16 @@ func (c *c03) run(tc T2JCase) {
 			cv := t2j.NewBinaryConv(conv.Options{Int642String: tc.O.I2s, ByteAsUint8: tc.O.U8, NoBase64Binary: tc.O.Nob64,
 				DisallowUnknownField: tc.O.Disallow, UseNativeSkip: native,
 				WriteRequireField: tc.O.Wreq, WriteDefaultField: tc.O.Wdef, WriteOptionalField: tc.O.Wopt})
-			out, err := cv.Do(context.Background(), c.root, doc)
+			var out []byte
+			var err error
+			if native {
+				// the second variant also goes through DoInto with a small caller buffer
+				buf := make([]byte, 0, 16)
+				err = cv.DoInto(context.Background(), c.root, doc, &buf)
+				out = buf
+			} else {
+				out, err = cv.Do(context.Background(), c.root, doc)
+			}
 			if err != nil {
 				ev["st"] = "err"
 				ev["msg"] = err.Error()
@@ -105,6 +115,7 @@ func (c *c03) run(tc T2JCase) {
 			ev["st"] = "ok"
 			ev["d"] = d
 			ev["json"] = string(out)
+			ev["jsonb"] = B(out)
 		}()
 		c.out.Emit(ev)
 	}
@@ -130,7 +141,7 @@ func randDescGraph(r *rand.Rand, keys bool) DescJ {
 				continue
 			}
 			used[id] = true
-			ty := randTy(r, names, k, 0)
+			ty := noStructKeys(randTy(r, names, k, 0))
 			if ty.T == tSTR && r.Intn(3) == 0 {
 				ty.N = "binary"
 			}
@@ -184,6 +195,20 @@ func convScalar(r *rand.Rand, t byte, finiteOnly bool) *Val {
 			return &Val{T: tDBL, B: be8(int64(bits))}
 		}
 	case tSTR:
+		if r.Intn(15) == 0 {
+			// dominated by control characters: every byte becomes a 6-byte \u00XX escape, so the quoted form
+			// outgrows any output buffer sized after the input (the quoter's grow-and-resume path)
+			l := []int{180, 200, 700, 1500, 3000}[r.Intn(5)]
+			b := make([]byte, l)
+			for i := range b {
+				if r.Intn(8) == 0 {
+					b[i] = byte('a' + r.Intn(26))
+				} else {
+					b[i] = byte(r.Intn(32))
+				}
+			}
+			return &Val{T: tSTR, B: b}
+		}
 		if r.Intn(2) == 0 {
 			return randScalar(r, t, cfg)
 		}
@@ -290,13 +315,22 @@ func (c *c03) genRandom(seed int64, base, n int) {
 		}
 		r := rand.New(rand.NewSource(seed*1000003 + int64(i)))
 		d := randDescGraph(r, true)
-		c.setDesc(d, thrift.Options{})
+		popts := thrift.Options{}
+		if c.prop == "c16" {
+			popts.SetOptionalBitmap = r.Intn(2) == 0
+		}
+		c.setDesc(d, popts)
 		for k := 0; k < 6; k++ {
-			v := convConforming(r, d.From, d, 0, false, false)
+			v := convConforming(r, d.From, d, 0, c.prop == "c16", false)
 			if r.Intn(4) == 0 { // unknown field
 				v.F = append(v.F, Field{uint16(20000 + r.Intn(100)), randScalar(r, tI32, &genCfg{})})
 			}
 			o := T2JOpts{I2s: r.Intn(2) == 0, U8: r.Intn(2) == 0, Nob64: r.Intn(2) == 0, Disallow: r.Intn(4) == 0}
+			if c.prop == "c16" {
+				// requiredness / write options on varying descriptors within one process (pooled bitmaps are reused)
+				o.Wreq, o.Wdef, o.Wopt = r.Intn(2) == 0, r.Intn(2) == 0, r.Intn(2) == 0
+				o.Optbm = popts.SetOptionalBitmap
+			}
 			tc := T2JCase{T: d.From.T, B: v.Enc(nil), O: o}
 			c.out.Begin(base+i, T2JCase{Desc: &d, T: tc.T, B: tc.B, O: tc.O})
 			c.run(tc)
@@ -307,7 +341,7 @@ func (c *c03) genRandom(seed int64, base, n int) {
 func c03Main(args map[string]string) {
 	out := newOut(args["out"])
 	defer out.Close()
-	c := &c03{}
+	c := &c03{prop: args["prop"]}
 	c.out = out
 	idx := 0
 	if cf := args["cases"]; cf != "" {
@@ -345,4 +379,15 @@ func stripDefaults(d DescJ) DescJ {
 		out.Structs[n] = nf
 	}
 	return out
+}
+
+// noStructKeys: JSON conversions have no form for struct-keyed maps; use string keys instead
+func noStructKeys(t TyJ) TyJ {
+	for i := range t.A {
+		t.A[i] = noStructKeys(t.A[i])
+	}
+	if t.T == tMAP && t.A[0].T == tSTRUCT {
+		t.A[0] = TyJ{T: tSTR, A: []TyJ{}}
+	}
+	return t
 }
